@@ -410,7 +410,11 @@ func Run(sc *uw.Scenario) *simkit.Outcome {
 				if !strict {
 					prop = "C12"
 				}
-				compareTree(out, prop, ai, m, tree, dec)
+				var top *PNode
+				if fi, err := os.Stat(realDst); err == nil {
+					top = &PNode{Kind: 'd', Mode: int64(fi.Mode().Perm()), MtimeNs: fi.ModTime().UnixNano()}
+				}
+				compareTree(out, prop, ai, m, tree, dec, top)
 				if faultFired {
 					out.Probe("unpack-ok-despite-fault")
 				}
@@ -540,8 +544,17 @@ func allowedPhys(res string, allow []string, realDst string) bool {
 
 // compareTree checks dst against the model tree (strict C15 comparison; also
 // used for C12: success under faults must still mean the whole archive).
-func compareTree(out *simkit.Outcome, prop string, ai int, m *model.UWModel, tree map[string]PNode, dec []model.DEntry) {
+func compareTree(out *simkit.Outcome, prop string, ai int, m *model.UWModel, tree map[string]PNode, dec []model.DEntry, top *PNode) {
 	keys, nodes := m.Flat()
+	if top != nil && m.Root.Explicit {
+		if top.Mode != m.Root.Mode {
+			out.Violate(prop, "tree-mode", "top-dir-mode", fmt.Sprintf("archive %d: the destination directory has mode %o, the archive's entry for its top directory says %o", ai, top.Mode, m.Root.Mode))
+		}
+		if top.MtimeNs != m.Root.MtimeNs && m.Root.ExplGen >= m.Root.TouchGen {
+			out.Violate(prop, "tree-mtime", "top-dir-mtime", fmt.Sprintf("archive %d: the destination directory has mtime %d, the archive's entry for its top directory says %d", ai, top.MtimeNs, m.Root.MtimeNs))
+		}
+		out.Probe("top-directory-entry")
+	}
 	unspecPrefix := func(p string) bool {
 		for _, k := range keys {
 			if nodes[k].Unspec && (p == k || strings.HasPrefix(p, k+"/")) {
